@@ -14,10 +14,12 @@ import (
 	"io"
 	"os"
 	"os/exec"
+	"reflect"
 	"sort"
 	"strings"
 	"sync"
 	"testing"
+	"unsafe"
 
 	xt "github.com/cosmos72/gomacro/go/types"
 	"github.com/cosmos72/gomacro/xreflect"
@@ -113,6 +115,23 @@ func sharedStdImporter() gt.Importer {
 	return sharedImp
 }
 
+// fastXreflectImporter: xreflect.DefaultImporter() obtains the go/types description from
+// importer.Default(), which runs one `go list -export` per package and per dependency
+// (0.3-1 s each, several seconds on a loaded machine). The harness swaps that
+// standard-library importer (not gomacro code) for an equivalent one that reads the same
+// gc export data located by the single `go list -export std` run; everything after it
+// (Importer.ImportFrom -> Converter.Package) is gomacro's code, unchanged.
+func fastXreflectImporter() *xreflect.Importer {
+	imp := xreflect.DefaultImporter()
+	f := reflect.ValueOf(imp).Elem().FieldByName("from")
+	if f.IsValid() {
+		if from, ok := newStdImporter().(gt.ImporterFrom); ok {
+			reflect.NewAt(f.Type(), unsafe.Pointer(f.UnsafeAddr())).Elem().Set(reflect.ValueOf(from))
+		}
+	}
+	return imp
+}
+
 // hasMethods: the package declares >= 1 exported named type with methods
 func hasMethods(g *gt.Package) bool {
 	sc := g.Scope()
@@ -149,7 +168,7 @@ var unmask string
 // no methods / stay incomplete until the NEXT Converter.Package call) the harness makes
 // those next calls itself, with an empty package, so that everything else about such
 // types is still compared.
-const flushes = 12
+const flushes = 8
 
 var emptyPkg = gt.NewPackage("verif/empty", "empty")
 
@@ -184,8 +203,8 @@ func runHistory(h history, label bool) error {
 	var ximp *xreflect.Importer
 	var simp gt.Importer
 	if h.Via == "xreflect" {
-		ximp = xreflect.DefaultImporter()
-		simp = importer.Default()
+		ximp = fastXreflectImporter()
+		simp = sharedStdImporter()
 	} else {
 		conv.Init(xt.Universe)
 		simp = sharedStdImporter()
@@ -371,7 +390,7 @@ func TestSequences(t *testing.T) {
 			}
 		}
 	}
-	rec.Check(t, rec.Scale(120, 1500), func(t *rapid.T) {
+	rec.Check(t, rec.Scale(60, 1500), func(t *rapid.T) {
 		n := rapid.IntRange(2, 10).Draw(t, "n")
 		h := history{Via: "converter"}
 		before := map[string]bool{}
@@ -423,7 +442,7 @@ func TestXreflectImporter(t *testing.T) {
 	}
 	s := mustStd(t)
 	// seed-stratified sample: every k-th package starting at an offset that depends on seed and shard
-	stride := rec.Scale(40, 3)
+	stride := rec.Scale(3, 1)
 	total := rec.NShards() * stride
 	off := int((rec.Seed()*7 + int64(rec.Shard())*int64(stride)) % int64(total))
 	var pick []string
@@ -436,7 +455,9 @@ func TestXreflectImporter(t *testing.T) {
 		rec.Eval(len(list))
 		rec.LabelN("xreflect-importer-packages", len(list))
 		for _, p := range list {
-			rec.NT(fmt.Sprintf("xreflect|%d|%s", pass, p))
+			if g, err := sharedStdImporter().Import(p); err == nil && hasMethods(g) {
+				rec.NT(fmt.Sprintf("xreflect|%d|%s", pass, p))
+			}
 		}
 		if err := runHistory(h, true); err != nil {
 			data, _ := json.MarshalIndent(h, "", " ")
